@@ -6,7 +6,7 @@ Confirmed changes are stored under /verif/seeded/<PROP>-<k>/ (patch.diff, demo.p
 import json, os, shutil, subprocess, sys, tempfile, glob
 VERIF = os.path.dirname(os.path.dirname(os.path.abspath(__file__)))
 prop, src = sys.argv[1], sys.argv[2]
-allprops = sorted(f[:-3].upper() for f in os.listdir(os.path.join(VERIF, "sa", "rules")) if f.startswith("c") and f.endswith(".py") and f[1:3].isdigit())
+allprops = sorted(f[:-3].upper() for f in os.listdir(os.path.join(VERIF, "sa", "rules")) if len(f) == 6 and f.startswith("c") and f.endswith(".py") and f[1:3].isdigit())
 
 def run(cmd, **kw):
     return subprocess.run(cmd, capture_output=True, text=True, **kw)
